@@ -39,6 +39,62 @@ def load_params():
         return json.load(f).get("params", {})
 
 
+def load_sigs():
+    with open(KNOWN_PATH) as f:
+        return json.load(f).get("sigs", {})
+
+
+def alias_renamed_fns(j, sigs):
+    """A function of the reviewed tree that is gone, while a function the reviewed tree does not
+    know has appeared in the same module / impl with the same parameter types, return type and
+    asyncness — uniquely both ways — is a RENAME: the new name is mapped back to the reviewed one
+    everywhere (body names, closures nested in it, every callee / resolved reference), so renaming
+    a private function changes no verdict.  Returns [(new name, reviewed name)]."""
+    present = {b["name"]: b for b in j["bodies"] if b["kind"] in ("Fn", "AssocFn")}
+    missing = [n for n in sigs if n not in present]
+    unknown = [n for n in present if n not in sigs]
+    if not missing or not unknown:
+        return []
+    def sig_of(b):
+        return (b.get("parent"), tuple(b.get("inputs") or ()), b.get("output"), bool(b.get("asyncness")), b.get("impl_trait"))
+    def sig_known(n):
+        s_ = sigs[n]
+        return (s_.get("parent"), tuple(s_.get("inputs") or ()), s_.get("output"), bool(s_.get("async")), s_.get("impl_trait"))
+    by_sig_m, by_sig_u = {}, {}
+    for n in missing:
+        by_sig_m.setdefault(sig_known(n), []).append(n)
+    for n in unknown:
+        by_sig_u.setdefault(sig_of(present[n]), []).append(n)
+    ren = {}
+    for sg, ms in by_sig_m.items():
+        us = by_sig_u.get(sg, [])
+        if len(ms) == 1 and len(us) == 1:
+            ren[us[0]] = ms[0]
+    if not ren:
+        return []
+    import re as _re
+    keys = sorted(ren, key=len, reverse=True)
+    pat = _re.compile("|".join(_re.escape(k) + r"(?![\w])" for k in keys))
+    def fix(sv):
+        return pat.sub(lambda m: ren[m.group(0)], sv)
+    def walk(x):
+        if isinstance(x, list):
+            return [walk(e) for e in x]
+        if isinstance(x, dict):
+            out = {}
+            for k, v in x.items():
+                if k in ("span", "fn_span"):
+                    out[k] = v
+                elif isinstance(v, str) and k in ("name", "callee", "callee_full", "resolved", "fn", "parent", "def"):
+                    out[k] = fix(v)
+                else:
+                    out[k] = walk(v)
+            return out
+        return x
+    j["bodies"] = walk(j["bodies"])
+    return sorted(ren.items())
+
+
 def alias_params(j, params):
     """Parameters are identified by position: a function of the reviewed tree whose parameter was
     renamed keeps the reviewed name in every term (`self.x`, `changeset.fork`), so renaming a
@@ -1438,6 +1494,7 @@ def fold_consts(j):
 def normalize(j, known=None):
     """mutates the loaded fact dict; returns a summary for the evidence"""
     folded = fold_consts(j)
+    fn_renames = alias_renamed_fns(j, load_sigs()) if known is None else []
     renamed = alias_params(j, load_params()) if known is None else 0
     known = load_known() if known is None else known
     inl = Inliner(j, known).run()
@@ -1452,6 +1509,7 @@ def normalize(j, known=None):
         "absorbed": inl.absorbed,
         "refused": [{"caller": a, "callee": b, "reason": r} for a, b, r in inl.refused],
         "named_constants_folded": folded,
+        "functions_renamed": ["%s -> %s" % (a_, b_) for a_, b_ in fn_renames],
         "parameters_aliased": renamed,
         "adaptors_desugared": len(des.log),
         "closures_absorbed": des.absorbed,
